@@ -169,7 +169,7 @@ def _ident(acc, job, si, y, groups, ctrl, deadline):
         mc.load(m, y, groups, ctrl)
         lam = _lam(m)
         w = m.signed_weights(lam)
-        g1, g2 = m.gamma(lambda X: h), m.gamma(lambda X: h2)
+        g1, g2 = m.gamma(lambda X: h), m.gamma(lambda X: _as_column(job, h2))
         b = m.bound()
         pl = m.project_lambda(lam) if len(m.index) else lam
         return m, h, h2, lam, w, g1, g2, b, pl
@@ -303,7 +303,7 @@ def _custom(acc, job, deadline):
         h2 = np.array([real(f"k{i}", 0, 1) for i in range(n)], dtype=object)
         m = _custom_moment(groups, events, U)
         lam = _lam(m)
-        return m, h, h2, lam, m.signed_weights(lam), m.gamma(lambda X: h), m.gamma(lambda X: h2)
+        return m, h, h2, lam, m.signed_weights(lam), m.gamma(lambda X: h), m.gamma(lambda X: _as_column(job, h2))
 
     def on_ok(ctx, out):
         m, h, h2, lam, w, g1, g2 = out
@@ -314,6 +314,15 @@ def _custom(acc, job, deadline):
         acc.canary(ctx, "canary_custom", lhs == rhs + 1)
 
     acc.explore(run, on_ok, deadline=deadline, max_paths=300)
+
+
+def _as_column(job, v):
+    """every other job: the second predictor returns its (soft) predictions as an (n,1) column array, as Keras/TensorFlow models do - the moments
+    document that they squeeze it; the identities are about the SAME function of h whatever the container shape"""
+    v = np.asarray(v)
+    if len(v) >= 2 and sum(job["id"].encode()) % 2:
+        return v.reshape(-1, 1)
+    return v
 
 
 def _errobj(acc, job, deadline):
@@ -334,7 +343,7 @@ def _errobj(acc, job, deadline):
         wo = obj.signed_weights()
         lam = real("lam", 0)
         wl = obj.signed_weights(pd.Series([lam], index=obj.index, dtype=object))  # ErrorRate used with an explicit multiplier
-        return h, h2, wo, obj.gamma(lambda X: h).iloc[0], obj.gamma(lambda X: h2).iloc[0], lam, wl
+        return h, h2, wo, obj.gamma(lambda X: h).iloc[0], obj.gamma(lambda X: _as_column(job, h2)).iloc[0], lam, wl
 
     def on_ok(ctx, out):
         h, h2, wo, e1, e2, lam, wl = out
@@ -422,7 +431,7 @@ def replay(cex):
         m = _custom_moment(groups, events, U)
         lam = pd.Series([f(f"l{j}") for j in range(len(m.index))], index=m.index)
         w = m.signed_weights(lam)
-        lhs = float((lam * m.gamma(lambda X: h)).sum() - (lam * m.gamma(lambda X: h2)).sum())
+        lhs = float((lam * m.gamma(lambda X: h)).sum() - (lam * m.gamma(lambda X: _as_column(job, h2))).sum())
         rhs = -float(sum(w.iloc[i] * (h[i] - h2[i]) for i in range(n))) / n
         bad = [] if abs(lhs - rhs) <= 1e-9 * max(1, abs(lhs)) else [f"UtilityParity with utilities {U.tolist()}: lambda.(gamma(h)-gamma(h'))={lhs} but -(1/n)sum w(h-h')={rhs}"]
         return {"reproduced": bool(bad), "detail": "; ".join(bad) + f" | h={h.tolist()} h'={h2.tolist()} lam={list(lam)}"}
@@ -433,7 +442,7 @@ def replay(cex):
         obj = red.ErrorRate(costs={"fp": f("cfp", "1"), "fn": f("cfn", "1")})
         mc.load(obj, y, groups, ctrl)
         wo = obj.signed_weights()
-        lhs = float(obj.gamma(lambda X: h).iloc[0] - obj.gamma(lambda X: h2).iloc[0])
+        lhs = float(obj.gamma(lambda X: h).iloc[0] - obj.gamma(lambda X: _as_column(job, h2)).iloc[0])
         rhs = -float(sum(wo.iloc[i] * (h[i] - h2[i]) for i in range(n))) / n
         if abs(lhs - rhs) > 1e-9 * max(1, abs(lhs)):
             bad.append(f"ErrorRate: gamma(h)-gamma(h')={lhs} but -(1/n)sum w(h-h')={rhs}")
@@ -453,7 +462,7 @@ def replay(cex):
         lam = pd.Series([f(f"l{j}") for j in range(len(m.index))], index=m.index).iloc[::-1]
         if len(m.index):
             w = m.signed_weights(lam)
-            g1, g2 = m.gamma(lambda X: h), m.gamma(lambda X: h2)
+            g1, g2 = m.gamma(lambda X: h), m.gamma(lambda X: _as_column(job, h2))
             lhs = float((lam * g1).sum() - (lam * g2).sum())
             rhs = -float(sum(w.iloc[i] * (h[i] - h2[i]) for i in range(n))) / n
             if abs(lhs - rhs) > 1e-9 * max(1, abs(lhs)):
